@@ -172,8 +172,11 @@ class Repo:
                 continue
         # nested functions (direct lexical children at any statement depth,
         # but not inside deeper defs)
+        seen = {}
         for sub in _nested_defs(node):
-            self._add_func(qual + '.<locals>.' + sub.name, sub, m, cls=cls, parent=fi)
+            seen[sub.name] = seen.get(sub.name, 0) + 1
+            nm = sub.name if seen[sub.name] == 1 else f'{sub.name}#{seen[sub.name]}'
+            self._add_func(qual + '.<locals>.' + nm, sub, m, cls=cls, parent=fi)
 
     # -- lookup ------------------------------------------------------------
     def func(self, qualname) -> FuncInfo:
